@@ -1,4 +1,4 @@
 --------------------------- MODULE GenCondSyntax ---------------------------
 EXTENDS CondSyntax, Json
-Emit == PrintT(ToJson([kind |-> Mode, toks |-> toks, expect |-> Verdict]))
+Emit == PrintT(ToJson([kind |-> mode, toks |-> toks, expect |-> Verdict]))
 ============================================================================
